@@ -108,6 +108,8 @@ package stackitem
 //@ requires d != nil
 //@ pkg-invariant ErrTooDeep != nil && ErrInvalidValue != nil
 //@ ensures[close] result0 == nil && result1 == nil ==> d.count == old(d.count)
+// a number too large for a VM integer is an error of the decoder, not a panic of NewBigInteger
+//@ call NewBigInteger requires[range] in256(arg0.v)
 //@ ensures[scalar] result1 == nil && (is(result0, Bool) || is(result0, Null)) && old(d.count) > -4611686018427387904 ==> d.count == old(d.count) - 1
 //@ ensures[budget] result1 == nil && (is(result0, Bool) || is(result0, Null)) ==> d.count >= 0
 
